@@ -59,6 +59,13 @@ var cloneScripts = []cloneScript{
 		sets: []int{1, 2, 3}},
 	// format() works on a printer taken from a process-wide pool: the only scratch state shared by ALL executions
 	{name: "format-builtin", src: `out := format("%d-%s", a, "x")`, inputs: map[string]interface{}{"a": 0}, sets: []int{1, 2, 3}},
+	{name: "runtime-error-in-module", src: `m := import("mod")
+out := m.f(a)`, mods: map[string]string{"mod": `export {f: func(x) {
+	if x > 1 {
+		return x + "s"
+	}
+	return x
+}}`}, inputs: map[string]interface{}{"a": 0}, sets: []int{2, 3, 1}},
 	{name: "runtime-error-position", src: `out := 0
 if a > 0 {
 	out = a + "x"
